@@ -366,19 +366,21 @@ def _admit_lines(w, done):
     return out
 
 
-def _sync_lines(w, s, only_nonempty=False):
+def _sync_lines(w, s, only_nonempty=False, last=None):
+    """set-up / re-synchronisation lines; with `last` (the state the model is known to be in) only what differs"""
     lines = []
     for i, c in enumerate(s["cached"]):
-        if c or not only_nonempty:
+        if (last is not None and last["cached"][i] != c) or (last is None and (c or not only_nonempty)):
             lines.append(f"cached {i} {int(c)}")
     for c, l in enumerate(s["conns"]):
-        if l or not only_nonempty:
+        if (last is not None and last["conns"][c] != l) or (last is None and (l or not only_nonempty)):
             lines.append(f"conns {c} " + " ".join(map(str, l)))
     for c, _n, pname, _l, _ch in w.chans:
         if pname in ("inputs", "outputs"):
-            if s["val"][c] is not None or not only_nonempty:
+            if (last is not None and last["val"][c] != s["val"][c]) or \
+                    (last is None and (s["val"][c] is not None or not only_nonempty)):
                 lines.append(f"val {c} {_o(s['val'][c])}")
-            if s["recv"][c] is not None:
+            if s["recv"][c] is not None and (last is None or last["recv"][c] != s["recv"][c]):
                 lines.append(f"recv {c} {s['recv'][c]}")
     return lines
 
@@ -413,6 +415,7 @@ def run_impl(case):
         if op[0] == "setval":
             _vid(w, op[3])
     model = _setup_lines(w, case)
+    known = {"s": _snapshot(w), "locked": [bool(getattr(n, "running", False)) for n in w.nodes]}
     admitted: set = set()
     model += _admit_lines(w, admitted)
     obs, snaps = [], []
@@ -447,6 +450,7 @@ def run_impl(case):
                     res = type(e).__name__
                 after = _snapshot(w)
                 model.append(f"copychan {w.cid[id(ca)]} {w.cid[id(cb)]}")
+                known["s"] = after
                 obs += _fmt(w, res, after)
                 snaps.append({"op": op, "ids": [w.cid[id(ca)], w.cid[id(cb)]], "res": res, "before": before,
                               "after": after, "comp_kind": "-"})
@@ -489,6 +493,7 @@ def run_impl(case):
                     replaced[after["label"][nid_]] = type(new).__name__
                     if comp is not w.comp:
                         replaced["__nested__"] = True
+                known["s"] = after
                 obs += _fmt(w, res, after)
                 snaps.append({"op": ["replace", op[1], op[2], op[3]], "ids": [pid, oid, nid_], "res": res, "before": before,
                               "after": after, "comp_kind": _comp_kind(comp)})
@@ -534,6 +539,7 @@ def run_impl(case):
                     if args[0] is not w.comp:
                         replaced["__nested__"] = True
                 model.append(line)
+                known["s"] = after
                 obs += _fmt(w, res, after)
                 snaps.append({"op": op, "ids": ids, "res": res, "before": before, "after": after,
                               "comp_kind": _comp_kind(args[0]) if kind != "copyio" else "-"})
@@ -547,9 +553,11 @@ def run_impl(case):
                 bump("op:runcheck")
                 s = _snapshot(w)
                 model += _admit_lines(w, admitted)
-                model += _sync_lines(w, s)
+                model += _sync_lines(w, s, last=known["s"])
                 for p, st in s["starting"].items():
-                    model.append(f"start {p} " + " ".join(map(str, st)))
+                    if known["s"]["starting"].get(p) != st:
+                        model.append(f"start {p} " + " ".join(map(str, st)))
+                known["s"] = s
             else:
                 try:
                     if kind == "connect":
@@ -572,11 +580,16 @@ def run_impl(case):
                     pass
                 s = _snapshot(w)
                 model += _admit_lines(w, admitted)
-                model += _sync_lines(w, s)
+                model += _sync_lines(w, s, last=known["s"])
                 for p, st in s["starting"].items():
-                    model.append(f"start {p} " + " ".join(map(str, st)))
+                    if known["s"]["starting"].get(p) != st:
+                        model.append(f"start {p} " + " ".join(map(str, st)))
+                known["s"] = s
                 for i, n in enumerate(w.nodes):
-                    model.append(f"{'locked' if getattr(n, 'running', False) else 'unlocked'} {i}")
+                    lk = bool(getattr(n, "running", False))
+                    if lk != known["locked"][i]:
+                        model.append(f"{'locked' if lk else 'unlocked'} {i}")
+                        known["locked"][i] = lk
                 bump(f"op:{kind}")
     finally:
         FORBID.clear()
